@@ -41,7 +41,7 @@ mod verif_native_multiset {
         let peer_id: Box<str> = pk.to_peer_id().unwrap().into();
         let other_peer_id: Box<str> = other_pk.to_peer_id().unwrap().into();
         let mut cases = 0u64;
-        let all = vectors(3);
+        let all = vectors(if std::env::var("VERIF_TIER").map(|v| v == "thorough").unwrap_or(false) { 4 } else { 3 });
         for ours in &all {
             // to_count_map returns the multiset of its argument (the contract assumed by the Verus unit `multisubset`)
             let counted: BTreeMap<String, usize> = to_count_map(ours).into_iter().map(|(k, v)| (k.to_string(), v)).collect();
